@@ -45,7 +45,8 @@ UParseDemands(e, r) ==
 UUStep(e) ==
   CASE e.op = "uu.set" -> UUSetMax(e.max) /\ Note(<<>>)
     [] e.op = "uu.fmt" -> UNCHANGED uvars /\ Note(UFmtDemands(e))
+    [] e.op = "uu.utext" -> UUUnmarshalText(e.in) /\ Note(UTextDemands(e, uRet', uRecv', e.recv))
     [] e.op = "uu.parse" -> UUParse(e.in, e.rule) /\ Note(UParseDemands(e, uRet'))
 
-IsUUOp(e) == e.op \in {"uu.set", "uu.fmt", "uu.parse"}
+IsUUOp(e) == e.op \in {"uu.utext", "uu.set", "uu.fmt", "uu.parse"}
 =============================================================================
